@@ -311,7 +311,13 @@ def _generate_case(fa, c, raw, n, seed, generate_many, generate_one, validate):
                 back = {"ok": True, "v": proj.pv(fa.schemaless_reader(io.BytesIO(b), raw))}
             except Exception as e:  # noqa: BLE001
                 back = {"ok": False, "exc": proj.pexc(e)["exc"]}
-            c["rts"].append({"ok": True, "bytes": list(b), "back": back})
+            fo2 = io.BytesIO()
+            try:
+                fa.schemaless_writer(fo2, raw, v, strict=True)
+                strict = {"ok": True, "bytes": list(fo2.getvalue())}
+            except Exception as e:  # noqa: BLE001
+                strict = {"ok": False, "exc": proj.pexc(e)["exc"], "bytes": []}
+            c["rts"].append({"ok": True, "bytes": list(b), "back": back, "strict": strict})
         except Exception as e:  # noqa: BLE001
             c["rts"].append({"ok": False, "exc": proj.pexc(e)["exc"]})
     try:
